@@ -22,6 +22,7 @@ import GraphiqModel.Proofs.CompareRepairStab
 import GraphiqModel.Proofs.CompareRepairRenEq
 import GraphiqModel.Proofs.CompareRepairDirect
 import GraphiqModel.Proofs.CompareRepairEquiv
+import GraphiqModel.Proofs.CompareRepairComplete
 namespace Graphiq.C15
 open Graphiq Graphiq.Export Graphiq.Compare
 
@@ -278,6 +279,18 @@ theorem circuit_is_isomorphic_to_its_copy (c : Circuit) (h : WellFormed c) :
       isoCheck2 g.normalise.addControlTarget2 g.normalise.addControlTarget2 (idMapOf g.normalise.addControlTarget2) = true :=
   build_iso_refl c (wellFormed_opOK c h)
 
+/-- **no false-distinct on renamed copies**: if the registers of a well-formed circuit are renamed by a type-preserving
+    bijection `π` of its registers (every operation renamed in place, same order), the repaired comparison has an
+    isomorphism to report — the node map "input/output nodes follow their register, operation nodes keep their id" passes
+    the full check (`networkx.is_isomorphic`, deciding existence, answers `True`).  Together with `iso_sound` this pins the
+    repaired function from both sides; the converse for arbitrary `RenamedBy` pairs (operations also reordered) is tested,
+    not proved. -/
+theorem renamed_copy_is_isomorphic (c : Circuit) (h : WellFormed c) (π : Wire → Wire)
+    (hπ : IsRenaming (wiresN c.ne c.np c.nc) π) (hsurj : ∀ w2 ∈ wiresN c.ne c.np c.nc, ∃ w ∈ wiresN c.ne c.np c.nc, π w = w2) :
+    ∃ g1 g2 f, MG.build c = .ok g1 ∧ MG.build ⟨c.ne, c.np, c.nc, c.ops.map (renOp π)⟩ = .ok g2 ∧
+      isoCheck2 g1.addControlTarget2 g2.addControlTarget2 f = true :=
+  renamed_copy_iso c (wellFormed_opOK c h) π hπ hsurj
+
 /-- a positive answer of the repaired model always exhibits a map that passes the full check (the search is never trusted) -/
 theorem iso2_answer_is_checked (g1 g2 : MG) (h : isoGraphs2 g1 g2 = true) :
     ∃ f, isoCheck2 g1.addControlTarget2 g2.addControlTarget2 f = true := isoGraphs2_witness g1 g2 h
@@ -456,5 +469,11 @@ example :
     WellFormed ⟨1, 1, 0, [.one .H ⟨.e, 0⟩] ++ Op.unwrap (.wrap [.H, .S] ⟨.p, 0⟩) ++ [.ctrl .CNOT ⟨.e, 0⟩ ⟨.p, 0⟩]⟩ ∧
     WellFormed ⟨1, 1, 0, [.one .H ⟨.e, 0⟩] ++ [.one .I ⟨.p, 0⟩] ++ [.ctrl .CNOT ⟨.e, 0⟩ ⟨.p, 0⟩]⟩ ∧
     WellFormed ⟨1, 1, 0, [.one .H ⟨.e, 0⟩] ++ [.ctrl .CNOT ⟨.e, 0⟩ ⟨.p, 0⟩]⟩ := by decide +kernel
+
+/-- the hypotheses are met: exchanging the two emitters of the D22 circuit is a renaming (and the model's search finds the
+    isomorphism: `circuitIsIsomorphic2 d22A d22A' = .ok true` above) -/
+example : IsRenaming (wiresN 2 0 0) (fun w => if w = ⟨.e, 0⟩ then ⟨.e, 1⟩ else if w = ⟨.e, 1⟩ then ⟨.e, 0⟩ else w) ∧
+    (⟨2, 0, 0, d22A.ops.map (renOp (fun w => if w = ⟨.e, 0⟩ then ⟨.e, 1⟩ else if w = ⟨.e, 1⟩ then ⟨.e, 0⟩ else w))⟩ : Circuit) = d22A' := by
+  refine ⟨⟨?_, ?_, ?_⟩, by decide⟩ <;> decide
 
 end Graphiq.C15
